@@ -1,7 +1,7 @@
 #!/bin/bash
 # selftest/C11/run.sh — apply every patch of this directory to a scratch worktree of /repo (under /tmp, removed
 # afterwards), run the unit tests of the touched packages and `bin/check C11` against that tree.
-# Expected: regress-* => unit tests pass, check prints VIOLATION (exit 1); harmless-* => exit 0.
+# Expected: reg-* => unit tests pass, check prints VIOLATION (exit 1); ok-* => exit 0.
 cd "$(dirname "$0")"
 export GOFLAGS=-mod=mod GOPROXY=off
 for p in ${@:-*.patch}; do
